@@ -263,14 +263,19 @@ def do_sample(bd, buf, t, b, entry, hist, via=None, how="pos"):
         rng.n_valid = n
         rng.frac = (0.25, 0.5, 1 - 2.0**-10)[bi % 3]
         before = canon(bd)
-        if via is not None:
-            rng.choice_answer = via[1]
-            if how == "kw":
-                out = via[0].sample_batch(b, rng=rng)
+        try:
+            if via is not None:
+                rng.choice_answer = via[1]
+                if how == "kw":
+                    out = via[0].sample_batch(b, rng=rng)
+                else:
+                    out = via[0].sample_batch(b, rng)
             else:
-                out = via[0].sample_batch(b, rng)
-        else:
-            out = buf.sample_batch(b, rng)
+                out = buf.sample_batch(b, rng)
+        except Exception as e:  # noqa: BLE001 - sampling from a buffer that holds data is defined for every generator answer
+            col.tick(1)
+            col.violation(SIG.format(entry, "sampling-raised"), dict(hist=hist, error=f"{type(e).__name__}: {str(e)[:200]}", asked=[list(map(str, a)) for a in rng.asked][:4]))
+            continue
         batch = out[0] if is_per else out
         for a in rng.asked:
             if a[0] == "integers" and (a[1] != 0 or a[2] != len(bd.ref[t])):
